@@ -16,6 +16,12 @@ dispatched call (observed through a log written by the service itself) is answer
 requests without defects — exactly when the generated behaviour raises.
 
 Wrong Content-Types include near misses of the Arrow stream type (shared prefix / suffix / subtype tree).
+
+Family ``protocol_version`` (version rejections): a service that declares ``protocol_version`` receives otherwise
+valid unary / init / describe requests whose ``vgi_rpc.protocol_version`` is matching, absent, mismatched, malformed,
+not UTF-8, or canonical with a component longer than the interpreter's int-from-string digit limit (4301–9000 digits).
+A request refused for its version is a 400 with an Arrow body — never an in-band 200 (error marker without dispatch)
+and never a 5xx; a matching version is dispatched and answered 200; describe is answered 200 whatever the version.
 """
 
 from __future__ import annotations
@@ -44,7 +50,10 @@ RULE = (
     "Content-Type wrong / missing / with parameter; Content-Encoding identity / br / corrupt zstd / corrupt gzip (valid: none, "
     "zstd, gzip, upper-case); state token tampered / missing / garbage / swapped; body over the cap; Content-Length absent / "
     "non-numeric / negative / short; credentials missing / bad / forbidden} x Accept-Encoding variants.  "
-    "Non-trivial = at least one defective axis; distinct by SHA-1 of the canonical JSON case."
+    "Non-trivial = at least one defective axis; distinct by SHA-1 of the canonical JSON case.  Family protocol_version: "
+    "server version {2.7.1, 0.0.0, 10.20.30} x client version {matching major.minor with a 1-30 digit patch, absent, other major "
+    "or minor, 17 malformed spellings, 4 non-UTF-8 values, a 4301-9000 digit component in major / minor / patch position} x "
+    "{add, echo, noop, gen/init, scale/init, __describe__} x prefix x request coding; non-trivial = any version but a matching one."
 )
 ASSUMPTIONS = [
     "pyarrow's IPC reader and the zstandard / gzip libraries are trusted to decide 'decodable Arrow IPC body'",
@@ -410,5 +419,142 @@ def run_case(case: dict[str, Any]) -> Outcome:
     return out
 
 
+# --------------------------------------------------------------------------- family: protocol-version rejections
+#
+# "400 for ... parameter or version rejections": the service declares ``protocol_version`` and an otherwise valid
+# unary / init / describe request carries a generated client version.  The oracle is the statement's mapping only:
+# a request that was not dispatched because of its version is a 400 with an Arrow body (never an in-band 200, never a
+# 5xx); a dispatched one is 200.  Which versions are admitted is C09's subject — here a version with the server's
+# major.minor must be dispatched, one that certainly differs must be refused, and a matching version whose patch is
+# longer than the interpreter's int-from-string limit may go either way (both outcomes are inside the mapping).
+
+SERVER_VERSIONS = ("2.7.1", "0.0.0", "10.20.30")
+_PV_ROUTES = (("add", "unary"), ("echo", "unary"), ("noop", "unary"), ("gen", "init"), ("scale", "init"),
+              ("__describe__", "unary"))
+
+
+def _pv_value(draw: Any, server: str) -> tuple[str, bytes | None]:
+    major, minor, _patch = server.split(".")
+    kind = draw(st.sampled_from(["match", "match", "absent", "mismatch", "malformed", "non_utf8",
+                                 "huge", "huge", "huge_match"]))
+    digits = st.text("0123456789", min_size=1, max_size=30).map(lambda t: t.lstrip("0") or "0")
+    if kind == "match":
+        return kind, f"{major}.{minor}.{draw(digits)}".encode()
+    if kind == "absent":
+        return kind, None
+    if kind == "mismatch":
+        other = draw(digits.filter(lambda t: t not in (major, minor)))
+        v = f"{other}.{minor}.0" if draw(st.booleans()) else f"{major}.{other}.0"
+        return kind, v.encode()
+    if kind == "malformed":
+        base = f"{major}.{minor}.1"
+        return kind, draw(st.sampled_from([
+            f"{major}.{minor}", f"v{base}", f"0{major}.{minor}.1", f"{major}.0{minor}.1", f"{base}-rc1", f"{base}+b",
+            f"{base} ", f" {base}", "", f"{base}.0", f"{major}..1", f"{major},{minor},1", f"{base}\n",
+            "\u0662.\u0667.\u0661", f"-{base}", f"{major}.{minor}.x", "latest",
+        ])).encode()
+    if kind == "non_utf8":
+        return kind, draw(st.sampled_from([b"\xff", b"2.7.\xfe", b"\xc3", b"\xed\xa0\x80.0.0"]))
+    n = draw(st.sampled_from([4301, 4500, 5000, 9000]))  # past CPython's default int-from-string digit limit
+    lead = draw(st.sampled_from("123456789"))
+    big = lead + draw(st.sampled_from("0189")) * (n - 1)
+    if kind == "huge_match":
+        return kind, f"{major}.{minor}.{big}".encode()
+    pos = draw(st.sampled_from([0, 1]))
+    parts = [major, minor, draw(st.sampled_from(["0", big]))]
+    parts[pos] = big
+    return kind, ".".join(parts).encode()
+
+
+@st.composite
+def pv_cases(draw: Any) -> dict[str, Any]:
+    server = draw(st.sampled_from(SERVER_VERSIONS))
+    kind, value = _pv_value(draw, server)
+    method, route = draw(st.sampled_from(_PV_ROUTES))
+    return {"server": server, "kind": kind, "value": value, "method": method, "route": route,
+            "prefix": draw(st.sampled_from(["", "/vgi"])), "variant": draw(st.integers(0, 3)),
+            "cenc": draw(st.sampled_from(["none", "none", "zstd", "gzip"]))}
+
+
+_PV_APPS: dict[tuple[str, str], Any] = {}
+
+
+def _pv_app(server: str, prefix: str) -> Any:
+    key = (server, prefix)
+    if key not in _PV_APPS:
+        from typing import ClassVar, Protocol
+
+        from vgi_rpc.http import make_wsgi_app
+        from vgi_rpc.rpc import RpcServer
+
+        class SvcV(H.Svc, Protocol):
+            protocol_version: ClassVar[str] = server
+
+        srv = RpcServer(SvcV, H.SvcImpl(), server_id="verif-srv", enable_describe=True)
+        with warnings.catch_warnings():
+            warnings.simplefilter("ignore")
+            _PV_APPS[key] = make_wsgi_app(srv, prefix=prefix, token_key=b"c15-key-" * 4)
+    return _PV_APPS[key]
+
+
+def run_pv(case: dict[str, Any]) -> Outcome:
+    from vgi_rpc.metadata import PROTOCOL_VERSION_KEY
+
+    out = Outcome()
+    app = _pv_app(case["server"], case["prefix"])
+    method, route, kind, value = case["method"], case["route"], case["kind"], case["value"]
+    extra = {PROTOCOL_VERSION_KEY: value} if value is not None else {}
+    if method == "__describe__":
+        plain = H.craft(pa.schema([]), {}, {H.RPC_METHOD_KEY: b"__describe__",
+                                            H.REQUEST_VERSION_KEY: H.REQUEST_VERSION, **extra})
+    else:
+        # behaviours that return (no generated failure): the only thing that may go wrong is the version
+        args = {"gen": {"count": 2, "fail_at": -1}, "scale": {"factor": 3}, "add": {"a": case["variant"], "b": 1}}
+        plain = H.request_bytes(method, args.get(method), extra_md=extra or None)
+    headers = {"Content-Type": H.ARROW_CT}
+    body = plain
+    if case["cenc"] == "zstd":
+        body, headers["Content-Encoding"] = zstandard.ZstdCompressor(level=1).compress(plain), "zstd"
+    elif case["cenc"] == "gzip":
+        body, headers["Content-Encoding"] = gzip.compress(plain, mtime=0), "gzip"
+    path = f"{case['prefix']}/{method}" + ("/init" if route == "init" else "")
+    del H.DISPATCH_LOG[:]
+    resp = H.wsgi_call(app, "POST", path, headers=headers, body=body)
+    dispatched = list(H.DISPATCH_LOG)
+    describe = method == "__describe__"
+    out.nontrivial = kind != "match"
+    out.label(f"pv={kind}", f"status={resp.status}", f"route={route}", "describe" if describe else "method",
+              "dispatched" if dispatched else "not_dispatched")
+    out.note = {"status": resp.status, "kind": kind, "dispatched": dispatched, "value": (value or b"")[:40]}
+    what = f"{method} ({route}) server={case['server']} client version {kind} {(value or b'')[:24]!r}…"
+    if resp.status >= 500:
+        out.fail(f"5xx/{route}/{_wsgi_error_type(resp)}", f"status {resp.status} for {what}")
+        return out
+    decodable, has_exc, why = decode_body(resp)
+    if not decodable:
+        out.fail(f"non_arrow_body/{resp.status}/{_json_title(resp)}", f"{what}: body is not Arrow IPC ({why})")
+    if describe or kind == "match":
+        allowed = {200}
+    elif kind == "huge_match":
+        allowed = {200, 400}
+    else:
+        allowed = {400}
+    served = resp.status == 200 and resp.get("x-vgi-rpc-error") is None and (describe or bool(dispatched))
+    if resp.status == 200 and not served:
+        out.fail(f"undispatched_as_server_error/{route}/version:{kind}/{_error_class(_body_exception_type(resp))}",
+                 f"{what}: answered 200 (marker={resp.get('x-vgi-rpc-error')!r}, dispatched={bool(dispatched)}) "
+                 f"although no user code ran; a version rejection is a 400")
+    elif resp.status not in allowed:
+        out.fail(f"status/{route}/version:{kind}/got{resp.status}",
+                 f"{what}: status {resp.status}, mapping allows {sorted(allowed)} (dispatched={bool(dispatched)})")
+    if dispatched and resp.status != 200:
+        out.fail(f"dispatched_not_200/{route}/version:{kind}/got{resp.status}",
+                 f"{what}: user code ran ({dispatched}) but status is {resp.status}")
+    if resp.status == 200 and decodable and (resp.get("x-vgi-rpc-error") == "true") != has_exc:
+        out.fail(f"marker_vs_body/{route}/version", f"{what}: marker={resp.get('x-vgi-rpc-error')!r}, exception batch={has_exc}")
+    return out
+
+
 def main(chk: Check) -> None:
     chk.explore("requests", cases, run_case, quick=2500, thorough=48000)
+    chk.explore("protocol_version", pv_cases(), run_pv, quick=400, thorough=6000)
